@@ -167,14 +167,14 @@ class Run:
         model = self.objs["model"]
         stored = step.get("stored")
         if stored is not None:
-            setattr(model, spec.get("state_field", "state"), stored)
+            setattr(model, spec.get("state_field", "state"), eval(step["stored_expr"], self.mod.__dict__))  # noqa: S307
         kw = {"rtc": spec["opts"]["rtc"], "allow_event_without_transition": spec["opts"]["allow"]}
         if listeners:
             kw["listeners"] = listeners
         if spec.get("state_field", "state") != "state":
             kw["state_field"] = spec["state_field"]
-        if step.get("start_value") is not None:
-            kw["start_value"] = step["start_value"]
+        if step.get("start") is not None:
+            kw["start_value"] = eval(step["start_expr"], self.mod.__dict__)  # noqa: S307
         # attribute guards need their value before instantiation (initial enter may send events)
         for nm, g in spec["guards"].items():
             if g["kind"] == "attr":
@@ -184,9 +184,14 @@ class Run:
                         setattr(cls, nm, v)
                     elif p in self.objs:
                         setattr(self.objs[p], nm, v)
-        rec.emit("step", op="construct", phase="begin", val=dict(rec.val), stored=stored)
+        rec.emit("step", op="construct", phase="begin", val=dict(rec.val), stored=stored, start=step.get("start"))
+        self.user_model = model
         try:
-            self.sm = cls(model, **kw)
+            if spec.get("model_shape") == "default":
+                self.sm = cls(**kw)
+                self.user_model = None
+            else:
+                self.sm = cls(model, **kw)
             self._push_attr_guards()
             rec.emit("step", op="construct", phase="end", engine=type(self.sm._engine).__name__ if hasattr(self.sm, "_engine") else None)
         except BaseException as err:  # noqa: BLE001
@@ -279,7 +284,37 @@ class Run:
         except Exception as err:  # noqa: BLE001
             info["active"] = None
             info["active_err"] = type(err).__name__
+        try:
+            info["csv"] = repr(sm.current_state_value)
+            info["cs_value"] = repr(sm.current_state.value) if info["cur"] is not None else None
+        except Exception as err:  # noqa: BLE001
+            info["csv_err"] = type(err).__name__
+        if getattr(self, "user_model", None) is not None:
+            info["model_is_users"] = sm.model is self.user_model
         rec.emit("step", op="probe", phase="end", **info)
+
+    def op_write(self, step):
+        """External writes: directly on the model, or through the low-level setters."""
+        rec, sm = self.rec, self.sm
+        if sm is None:
+            return
+        kind = step["kind"]
+        value = eval(step["value_expr"], self.mod.__dict__) if "value_expr" in step else None  # noqa: S307
+        rec.emit("step", op="write", phase="begin", wkind=kind, target=step.get("target"))
+        try:
+            if kind == "model":
+                setattr(sm.model, sm.state_field, value)
+            elif kind == "csv":
+                sm.current_state_value = value
+            elif kind == "cs":
+                sm.current_state = getattr(sm, step["target"])
+            rec.emit("step", op="write", phase="end", wkind=kind, target=step.get("target"), valid=step.get("valid", True))
+        except Exception as err:  # noqa: BLE001
+            rec.emit("step", op="write", phase="end", wkind=kind, target=step.get("target"), valid=step.get("valid", True),
+                     exc=type(err).__name__, exc_msg=str(err)[:150])
+        self._probe()
+        return
+        yield  # pragma: no cover
 
 
 def _patch_budget(rec, budget):
